@@ -489,6 +489,41 @@ def t4_sign_survives(ctx: Ctx):
     ctx.check(len(users) >= 1, NEGZERO, fn, '_sign_survives', 'the predicate is consulted by the rewriter', 'no caller')
 
 
+def t5_shed_rules(ctx: Ctx):
+    """UnfoldSpecial may take the infinity rule out of a format only if no *finite* operand reaches the infinity.  A
+    finite operand reaches it by overflowing under OverflowMode.OVERFLOW when the overflow of *either* sign rounds to the
+    infinity (RTP: the positive side only, RTN: the negative side only), or -- with random bits -- on a draw that rounds
+    away, whatever the base mode.  `_shedable` is evaluated, from its source, on every combination of class, overflow
+    mode, to-infinity behaviour of the two signs, random bits and the two infinity parameters."""
+    from itertools import product
+
+    from ..minipy import Interp, Obj
+    fn = ctx.fn(SPECIAL, '_shedable')
+    mod = ctx.repo.module(SPECIAL)
+    funcs = {s.name: s for s in mod.tree.body if isinstance(s, ast.FunctionDef)}
+    NANF, INFF = 1, 2
+    n = 0
+    bad = None
+    for kind, ov, pos_inf, neg_inf, k, en_inf, inf_value in product(('MPBFloatContext', 'MPBFixedContext', 'MPFloatContext'), ('OVERFLOW', 'SATURATE', 'WRAP'),
+                                                                   (False, True), (False, True), (0, 2, None), (False, True), (None, 'a value')):
+        c = Obj(kind, overflow=('enum', 'OverflowMode', ov), num_randbits=k, enable_inf=en_inf, inf_value=inf_value,
+                _overflow_to_infinity=lambda s, p=pos_inf, q=neg_inf: q if s else p)
+        it = Interp(funcs, globals_={'ValueClass': {'NAN': NANF, 'INF': INFF}})
+        got = it.call_function(fn, [c])
+        n += 1
+        bounded = kind != 'MPFloatContext'
+        reaches = bounded and ov == 'OVERFLOW' and (pos_inf or neg_inf or k != 0)
+        keeps_meaning = en_inf or inf_value is not None          # a refused infinity stays refused after shedding
+        if isinstance(got, int) and got & INFF and reaches and keeps_meaning and bad is None:
+            side = 'a negative' if (neg_inf and not pos_inf) else 'a'
+            bad = (f'{kind}(overflow={ov}, +overflow to inf: {pos_inf}, -overflow to inf: {neg_inf}, num_randbits={k}, enable_inf={en_inf}, inf_value={inf_value}): '
+                   f'the infinity rule is shed although {side} finite operand past the bound rounds to the infinity')
+    ctx.check(bad is None, SPECIAL, fn, '_shedable', f'the infinity rule is shed only where no finite operand reaches the infinity ({n} configurations)',
+              (bad or '') + ' -- under RTN `round(-70000)` in a format bounded by 65504 is -inf, and the rewritten program raises "Cannot round to infinity"')
+    if n < 432:
+        raise ShapeError(f'only {n} configurations evaluated')
+
+
 # ----------------------------------------------------------------------
 # F3 rebuilt formats / contexts carry every parameter over under its own name
 
@@ -503,6 +538,7 @@ def f3_rebuild_parameters(ctx: Ctx):
 RULES = [
     Rule('C10.T3', 'float-to-fixed: the overflow policy is accepted only when both overflow probes show it', t3_overflow_policy, 1, 'T'),
     Rule('C10.T4', 'negative-zero unfolding is refused exactly where a zero of foreign sign is reachable (wrap, or a zero substituted for a disabled NaN / infinity)', t4_sign_survives, 2, 'T'),
+    Rule('C10.T5', 'special-value unfolding sheds the infinity rule only where no finite operand reaches the infinity (either sign, random bits)', t5_shed_rules, 1, 'T'),
     Rule('C10.F3', 'a rebuilt format / context receives every carried-over parameter under its own name (no swapped or shifted arguments)', f3_rebuild_parameters, 30, 'F'),
     Rule('C10.P2', 'an analysis handed to a lowering rewriter along with a function is the analysis of that function', analysis_pairing((T + 'float_to_fixed.py', T + 'unfold_overflow.py', T + 'unfold_special.py', T + 'unfold_neg_zero.py', T + 'round_elim.py', T + 'round_insert.py', T + 'rescale_fixed.py'), 10), 10, 'P'),
     Rule('C10.T1', 'overflow unfolding: emitter and verifier use the same (operand, comparator, threshold) pairs; strict for maxval, non-strict for infval', t1_threshold_pairing, 13, 'T,F'),
@@ -517,6 +553,11 @@ RULES = [
 from ..selftest import Mutant  # noqa: E402
 
 MUTANTS = [
+    Mutant('shed-asks-the-positive-overflow-only', SPECIAL, "    if ctx.num_randbits == 0 and not any(ctx._overflow_to_infinity(s) for s in (False, True)):", "    if ctx.num_randbits == 0 and not ctx._overflow_to_infinity(False):", 'C10.T5',
+           'seeded change C10d: under RTN a negative overflow is -inf'),
+    Mutant('shed-ignores-random-bits', SPECIAL, "    if ctx.num_randbits == 0 and not any(ctx._overflow_to_infinity(s) for s in (False, True)):", "    if not any(ctx._overflow_to_infinity(s) for s in (False, True)):", 'C10.T5',
+           'finding F70 before its repair: under RTZ with random bits 65530 rounds to +inf on some draws'),
+    Mutant('shed-whatever-the-overflow-mode', SPECIAL, "    if ctx.overflow is not OverflowMode.OVERFLOW:\n        return both     # saturating", "    if ctx.overflow is OverflowMode.OVERFLOW:\n        return both     # saturating", 'C10.T5'),
     Mutant('zero-substitutes-ignored-when-a-special-is-on', NEGZERO, "    subs = (\n        ([] if ctx.enable_nan else [ctx.nan_value])\n        + ([] if ctx.enable_inf else [ctx.inf_value])\n    )",
            "    if ctx.enable_nan or ctx.enable_inf:\n        return True\n    subs = (ctx.nan_value, ctx.inf_value)", 'C10.T4', 'seeded change C10c'),
     Mutant('zero-substitutes-consulted-when-enabled', NEGZERO, "    subs = (\n        ([] if ctx.enable_nan else [ctx.nan_value])\n        + ([] if ctx.enable_inf else [ctx.inf_value])\n    )",
